@@ -36,7 +36,7 @@ Headline theorems (namespace `Cv.Rounding5`; structure lemmas `*_pert` in `Lemma
   `onepass_exact_eq_comoment`; `online_error_partial` (structure of the online algorithm relative to
   its *computed* running means; the comparison with the exact means is not done)
 
-* numeric corollaries at `u = 2⁻⁵³`: `f64_constants_note`, `f64_trapz_note`
+* numeric corollaries at `u = 2⁻⁵³`: `f64_constants_note` (pure numerics), `stdmodel_trapz_note`
 Non-vacuity: `namespace Examples` at the end.
 -/
 namespace Cv.Rounding5
@@ -363,7 +363,9 @@ theorem rbf_error [ExpLnStd M] [PowStd M] (k : Gp.RBF (Fl M)) (x y : Fl M) (hv :
       (mul_pos (by linarith [ExpLnStd.uf_lt_one (M := M)]) M.one_sub_u_pos)
   · exact mul_nonneg (Real.exp_pos _).le hv
 
-/-- **RBF kernel, sign**: the computed value is positive (variance `> 0` as the constructor asserts) -/
+/-- **RBF kernel, sign**: the computed value is positive (variance `> 0` as the constructor asserts) IN THE
+IDEALISED MODEL.  PROVISO: `ExpLnStd` is an idealisation — no IEEE `exp` has relative error `≤ uf` below `−745.13` (underflow) or above `709.78` (overflow); at binary64 the computed value can be exactly `0` there.  The underflow-aware variants are in namespace `Cv.Rounding3U` (class `ExpLnUfl`).  (at binary64, `RBF(σ²=1, ℓ=0.01)(1000, −1000) = 0`; `Rounding3U.rbf_range_ufl`:
+`0 ≤ k̂ ≤ σ²(1+u)`.) -/
 theorem rbf_pos [ExpLnStd M] [PowStd M] (k : Gp.RBF (Fl M)) (x y : Fl M) (hv : 0 < k.var.val) :
     0 < (k.fwd x y).val := by
   rw [rbf_unfold]
@@ -409,7 +411,8 @@ theorem rq_error [ExpLnStd M] [PowStd M] (k : Gp.RQ (Fl M)) (x y : Fl M) (hv : 0
   · have := rqArg_nonneg k x y hα
     exact mul_nonneg (Real.rpow_pos_of_pos (by linarith) _).le hv
 
-/-- **rational-quadratic kernel, sign** -/
+/-- **rational-quadratic kernel, sign** (idealised model; with an underflowing `powf` only `0 ≤ k̂`:
+`Rounding3U.rq_nonneg_ufl`) -/
 theorem rq_pos [ExpLnStd M] [PowStd M] (k : Gp.RQ (Fl M)) (x y : Fl M) (hv : 0 < k.var.val)
     (hα : 0 ≤ k.alpha.val) : 0 < (k.fwd x y).val := by
   have nb := rqBase_near k x y hα
@@ -433,9 +436,10 @@ end transc
 `dyᵢ = yᵢ − y₀`): with `n` points,
 `|ĉ − (Σdxᵢdyᵢ − (Σdxᵢ)(Σdyᵢ)/n)/(n−1)| ≤ (γ_{n+6}·Σ|dxᵢdyᵢ| + γ_{2n+8}·(Σ|dxᵢ|)(Σ|dyᵢ|)/n)/(n−1)`.
 The bound is in terms of the *sizes* of the two subtracted quantities, not of their difference: the
-cancellation-sensitivity of the textbook formula, mitigated (not removed) by the shift. -/
+cancellation-sensitivity of the textbook formula, mitigated (not removed) by the shift.  At least two points
+(`hn2`: `n − 1 ≥ 1`; for `n = 1` the code divides by zero and returns NaN). -/
 theorem onepass_error (x0 y0 : Fl M) (xr yr : List (Fl M)) (hxy : xr.length = yr.length)
-    (h : ((2 * (xr.length + 1) + 8 : Nat) : ℝ) * M.u < 1) :
+    (hn2 : 1 ≤ xr.length) (h : ((2 * (xr.length + 1) + 8 : Nat) : ℝ) * M.u < 1) :
     ∃ v, sampleCovarianceOnepass (x0 :: xr) (y0 :: yr) = some v ∧
       |v.val - ((Rounding2.cprods x0.val y0.val (x0 :: xr) (y0 :: yr)).sum
           - ((vals (x0 :: xr)).map (· - x0.val)).sum * ((vals (y0 :: yr)).map (· - y0.val)).sum
@@ -445,6 +449,7 @@ theorem onepass_error (x0 y0 : Fl M) (xr yr : List (Fl M)) (hxy : xr.length = yr
               ((((vals (x0 :: xr)).map (· - x0.val)).map (|·|)).sum
                 * (((vals (y0 :: yr)).map (· - y0.val)).map (|·|)).sum)
             / ((xr.length + 1 : Nat) : ℝ)) / ((xr.length : Nat) : ℝ) := by
+  have _ := hn2
   obtain ⟨v, sxy, sx, sy, G, H, hv, p1, p2, p3, hG, hH, hval⟩ := onepass_struct x0 y0 xr yr hxy
   refine ⟨v, hv, ?_⟩
   set T := Rounding2.cprods x0.val y0.val (x0 :: xr) (y0 :: yr) with hT
@@ -486,7 +491,7 @@ With an exactly representable counter (`n < 2⁵³` at `f64`) the computed value
 the deviations from the *computed* running means: the accumulation itself is as stable as a plain sum;
 what remains is the effect of the errors of the running means on the terms (first order in
 `u·max|xᵢ|`, as for Welford's variance, cf. `Rounding2.welford_mean_term_necessary`). -/
-theorem online_error_partial (x y : List (Fl M)) (hxy : x.length = y.length) (hn : 1 ≤ x.length)
+theorem online_error_partial (x y : List (Fl M)) (hxy : x.length = y.length) (hn : 2 ≤ x.length)
     (hN : ∀ k : Nat, k ≤ x.length → M.rnd (k : ℝ) = k) (h : ((x.length + 4 : Nat) : ℝ) * M.u < 1) :
     ∃ v, sampleCovarianceOnline x y = some v ∧
       |v.val - (onlineTerms ((0 : Fl M), (0 : Fl M), (0 : Fl M), (0 : Fl M)) (List.zip x y)).sum
@@ -494,7 +499,7 @@ theorem online_error_partial (x y : List (Fl M)) (hxy : x.length = y.length) (hn
         M.γ (x.length + 4) *
           (((onlineTerms ((0 : Fl M), (0 : Fl M), (0 : Fl M), (0 : Fl M)) (List.zip x y)).map (|·|)).sum
             / ((x.length - 1 : Nat) : ℝ)) := by
-  obtain ⟨v, hv, hp⟩ := online_pert_partial x y hxy hn hN
+  obtain ⟨v, hv, hp⟩ := online_pert_partial x y hxy (by omega) hN
   refine ⟨v, hv, ?_⟩
   have := hp.error h
   rwa [sum_map_div, sum_map_abs_div _ _ (Nat.cast_nonneg _)] at this
@@ -573,15 +578,19 @@ theorem f64_constants_note (M : FlModel) (hu : M.u = 1 / 2 ^ 53) :
       le_trans (M.γ_mono hle h61) ?_⟩
     unfold FlModel.γ; rw [hu]; norm_num
 
-/-- **`trapz` at `f64`**: for `n ≤ 9996` the computed value is within `1.12·10⁻¹²·Σ|wᵢ f̂(x̂ᵢ)|` of the
+/-- **`trapz` in a standard model with `u = 2⁻⁵³`** (PROVISO: a theorem of the idealised standard model (`fl(x) = x(1+δ)` for EVERY operation, library functions of relative error `≤ uf` for EVERY argument), instantiated at `u = 2⁻⁵³`; it is a statement about IEEE binary64 only where no operation overflows or underflows (for `exp`: arguments in `[−708.39, 709.78]`).): for `n ≤ 9996` the computed value is within `1.12·10⁻¹²·Σ|wᵢ f̂(x̂ᵢ)|` of the
 rule's exact weighted sum of the computed integrand values. -/
-theorem f64_trapz_note (M : FlModel) (hu : M.u = 1 / 2 ^ 53) (f : Fl M → Fl M) (a b : Fl M) (n : Nat)
+theorem stdmodel_trapz_note (M : FlModel) (hu : M.u = 1 / 2 ^ 53) (f : Fl M → Fl M) (a b : Fl M) (n : Nat)
     (hn : n ≤ 9996) :
     |(trapz f a b n).val - (ruleTerms (trapzRule a b n) fun x => (f x).val).sum| ≤
       1.12e-12 * ((ruleTerms (trapzRule a b n) fun x => (f x).val).map (|·|)).sum := by
   obtain ⟨hlt, hγ⟩ := (f64_constants_note M hu).1 n hn
   refine le_trans (trapz_error f a b n hlt) (mul_le_mul_of_nonneg_right hγ ?_)
   exact List.sum_nonneg (by intro t ht; obtain ⟨s, _, rfl⟩ := List.mem_map.mp ht; exact abs_nonneg s)
+
+/-- deprecated alias of `stdmodel_trapz_note` (the `f64_` prefix wrongly suggested a statement about IEEE binary64; kept only
+until the `REQUIRED_THEOREMS` wiring is updated) -/
+alias f64_trapz_note := stdmodel_trapz_note
 
 /-! ### the relative error of an extrapolated value is unbounded -/
 
@@ -843,7 +852,7 @@ end transc
 
 /-- `onepass_error` on `x = [1,2,3]`, `y = [2,4,7]` in the 1 % model: `(2·3+8)·u = 0.14 < 1` -/
 example : ∃ v, sampleCovarianceOnepass ([⟨1⟩, ⟨2⟩, ⟨3⟩] : List (Fl Minf)) [⟨2⟩, ⟨4⟩, ⟨7⟩] = some v := by
-  obtain ⟨v, hv, _⟩ := onepass_error (⟨1⟩ : Fl Minf) ⟨2⟩ [⟨2⟩, ⟨3⟩] [⟨4⟩, ⟨7⟩] rfl
+  obtain ⟨v, hv, _⟩ := onepass_error (⟨1⟩ : Fl Minf) ⟨2⟩ [⟨2⟩, ⟨3⟩] [⟨4⟩, ⟨7⟩] rfl (by simp)
     (by rw [Minf_u]; norm_num)
   exact ⟨v, hv⟩
 
